@@ -333,6 +333,19 @@ func init() {
 			return nil
 		},
 		// virtual clock / timers
+		// verifRacyFields("a,b,c"): accesses to struct fields with these names in
+		// library code become scheduling points (fields the library reads or
+		// writes without holding the lock that protects them elsewhere)
+		"verifRacyFields": func(th *thread, caller *frame, fn *ssa.Function, args []value, site ssa.Instruction) value {
+			m := th.m
+			m.racy = map[string]bool{}
+			for _, f := range strings.Split(argStr(args[0]), ",") {
+				if f = strings.TrimSpace(f); f != "" {
+					m.racy[f] = true
+				}
+			}
+			return nil
+		},
 		"verifTimerCount": func(th *thread, caller *frame, fn *ssa.Function, args []value, site ssa.Instruction) value {
 			return mkInt(uint64(len(th.m.timers)))
 		},
